@@ -141,6 +141,6 @@ func perturbTask[F any](site string, f F) F {
 	return w.Interface().(F)
 }
 
-func osExit(code int)         { os.Exit(code) }
-func realStdout() *os.File    { return os.Stdout }
-func realStderr() *os.File    { return os.Stderr }
+func osExit(code int)      { os.Exit(code) }
+func realStdout() *os.File { return os.Stdout }
+func realStderr() *os.File { return os.Stderr }
